@@ -263,7 +263,8 @@ class SArr:
             shape = tuple(self.size // known if s == -1 else s for s in shape)
         return SArr(None, self.dtype, shape, buf=self.buf, idx=list(self.idx))
 
-    def ravel(self):
+    def ravel(self, order="C"):
+        # the array model has no memory layout: every order enumerates the cells in index order (layout clauses are outside the model)
         return self.reshape((self.size,))
 
     def flatten(self):
@@ -1582,6 +1583,7 @@ def build_module():
     m.isnan = isnan
     m.array = array
     m.asarray = asarray
+    m.copy = lambda a, order="K", subok=False: a.copy() if hasattr(a, "copy") else array(a)
     m.atleast_1d = atleast_1d
     m.squeeze = squeeze
     m.take = take
